@@ -4,7 +4,7 @@ import ast
 
 from ..model import norm, head, walk_no_nested, AnalysisError, FuncInfo, enclosing_stmt, ancestors, live, last_live
 from ..cfg import cfg_of
-from ..q import (find, match, const, try_const, only_via, tests, stmt_nodes, one, fmt, cfg_node_for, calls)
+from ..q import (find, match, const, try_const, only_via, tests, stmt_nodes, one, fmt, cfg_node_for, calls, through_locals)
 from ..core import key
 
 CLF = 'nfc.clf.ContactlessFrontend'
@@ -226,12 +226,25 @@ def rule_sense(report, prog):
                  'sense() no longer returns the first found target in order')
     if loops:
         outer = [a for a in ancestors(loops[0]) if isinstance(a, ast.For)]
-        report.check(len(outer) == 1 and norm(outer[0].iter) == "range(max(1, options.get('iterations', 1)))", 'C18-R4',
+        report.check(len(outer) == 1 and through_locals(f.node, outer[0].iter) == "range(max(1, options.get('iterations', 1)))", 'C18-R4',
                      key(f.qname, 'iterations option bounds the search'), f.loc(), 'iteration loop changed')
     # dispatch by technology
-    disp = {norm(i.test): [norm(s) for s in live(i.body)] for i in walk_no_nested(f.node) if isinstance(i, ast.If) and ('brty.endswith' in norm(i.test) or 'atr_req' in norm(i.test))}
-    want = {'target.atr_req is not None': ['self.target = sense_dep(target)'], "target.brty.endswith('A')": ['self.target = sense_tta(target)'],
-            "target.brty.endswith('B')": ['self.target = sense_ttb(target)'], "target.brty.endswith('F')": ['self.target = sense_ttf(target)']}
+    # (a branch may call the driver directly or through a local function that does)
+    def driver_method(call):
+        if isinstance(call, ast.Call) and norm(call.func).startswith('self.device.') and [norm(a) for a in call.args] == ['target']:
+            return norm(call.func)[len('self.device.'):]
+        if isinstance(call, ast.Call) and isinstance(call.func, ast.Name) and call.func.id in f.closures and [norm(a) for a in call.args] == ['target']:
+            c_ = f.closures[call.func.id]
+            ms = set(driver_method(x) for x in walk_no_nested(c_.node) if isinstance(x, ast.Call) and norm(x.func).startswith('self.device.'))
+            return ms.pop() if len(ms) == 1 else None
+        return None
+    disp = {}
+    for i in walk_no_nested(f.node):
+        if isinstance(i, ast.If) and ('brty.endswith' in norm(i.test) or 'atr_req' in norm(i.test)):
+            body = live(i.body)
+            disp[norm(i.test)] = [driver_method(s_.value) if isinstance(s_, ast.Assign) and norm(s_.targets[0]) == 'self.target' else norm(s_) for s_ in body]
+    want = {'target.atr_req is not None': ['sense_dep'], "target.brty.endswith('A')": ['sense_tta'],
+            "target.brty.endswith('B')": ['sense_ttb'], "target.brty.endswith('F')": ['sense_ttf']}
     report.check(disp == want, 'C18-R4', key(f.qname, 'technology dispatch'), f.loc(), 'sense dispatch changed: %r' % disp)
     # field off on miss: from each driver sense call, every normal path to the function end passes mute()
     mutes = [n for n in cfg.nodes if n.kind == 'stmt' and n.ast is not None and norm(n.ast) == 'self.device.mute()']
